@@ -51,13 +51,18 @@ class Config:
         fx = c07fix.load()
         self.name = name
         self.fx = fx
-        if name == 'main':
+        if name in ('main', 'mainck'):
+            # mainck: the production situation - a populated checkpoint table (here its real first entry, the
+            # full table would preallocate 139 MB per object); only 22 of the chunk's 1000 headers are
+            # available offline, so the chunk itself stays "missing" and only connect() is exercised
+            from lbry.wallet.checkpoints import HASHES
+
             class MainHeaders(Headers):
-                checkpoints = {}
+                checkpoints = {0: HASHES[0]} if name == 'mainck' else {}
             self.cls = MainHeaders
             self.params = fx.main_params
             self.good = fx.H + [fx.main_alt['next20'], fx.main_alt['next21']]
-            self.ckpts = {}
+            self.ckpts = dict(MainHeaders.checkpoints)
         else:
             E = fx.E
             ck = {}
@@ -149,10 +154,29 @@ def materialize(cfg, op):
     raise ValueError(op)
 
 
-def alphabet(cfg_name, N):
-    """The fixed, ordered (simplest first) list of connect() operations for a chain prefix of N headers."""
+# A "run" of the connect BFS: which real class, which window [lo, lo+N) of the good chain the operations
+# touch, which extra operation families exist there, and the history that builds the root state.
+RUNS = {
+    'easy': dict(cfg='easy', lo=0, root=[]),
+    'main': dict(cfg='main', lo=0, root=[]),
+    # above the checkpointed chunk
+    'ckpt': dict(cfg='ckpt', lo=1000, root=[['good', 0, 1000]]),
+    # INSIDE a checkpointed chunk: validation must not depend on which configuration table is populated
+    'ckpt-inside': dict(cfg='ckpt', lo=0, root=[]),
+    'ckpt2-inside': dict(cfg='ckpt2', lo=1000, root=[['good', 0, 1000]]),
+    # straddling the end of the checkpointed chunk (heights 997..1002)
+    'ckpt-straddle': dict(cfg='ckpt', lo=997, root=[['good', 0, 999]]),
+    'mainck': dict(cfg='mainck', lo=0, root=[['good', 0, 20]]),
+}
+
+
+def alphabet(run, N):
+    """The fixed, ordered (simplest first) list of connect() operations of a run for a window of N headers."""
+    spec = RUNS[run]
+    cfg_name, lo = spec['cfg'], spec['lo']
+    from vf import c07fix
+    fx = c07fix.load()
     ops = []
-    lo = 1000 if cfg_name == 'ckpt' else 0        # ckpt: operate above the checkpointed chunk
     R = range(lo, lo + N)
     for n in range(1, N + 1):                     # every contiguous slice of the good chain
         for i in R:
@@ -172,22 +196,27 @@ def alphabet(cfg_name, N):
                         ops.append(['alt', i, n, pos, f])
     ops.append(['empty', lo])
     ops.append(['empty', lo + 1])
-    if cfg_name == 'easy':
-        for k in range(1, N):                     # a second valid chain attached at every lower height
+    if cfg_name in ('easy', 'ckpt', 'ckpt2'):
+        for k in range(max(lo, 1), lo + N):       # a second valid chain attached at every lower height
+            if k not in fx.forks:
+                continue
             for a in range(3):
                 for b in range(a + 1, 4):
                     ops.append(['fork', k, a, b])
             for b in (1, 2, 3):
                 ops.append(['xfork', k, b])
-        for p in range(1, N - 1):                 # valid except for one rule
+        for p in range(max(lo, 1), lo + N - 1):   # valid except for one rule
+            if p not in fx.rule:
+                continue
             for kind in RULE_KINDS:
                 ops.append(['rule', p, kind])
                 ops.append(['rule3', p, kind])
             for shape in ('r', 'rs', 'rv', 'grs', 's', 'v'):
                 ops.append(['ret', p, shape])
-        ops.append(['gen', 1])
-        ops.append(['gen', 2])
-    if cfg_name == 'main':
+        if lo == 0:
+            ops.append(['gen', 1])
+            ops.append(['gen', 2])
+    if cfg_name in ('main', 'mainck'):
         ops += [['named', 19, ['alt19']], ['named', 18, ['H18', 'alt19']], ['named', 19, ['alt19', 'next20']],
                 ['named', 10, ['alt10']], ['named', 10, ['alt10', 'alt11']], ['named', 11, ['alt11']],
                 ['named', 10, ['alt10', 'H11']], ['named', 9, ['H9', 'alt10', 'alt11']],
@@ -212,8 +241,9 @@ class Judge:
             v = self.memo[k] = P.judge(self.params, h, prev, pp)
         return v
 
-    def first_invalid(self, headers, lenient=True):
-        for i, h in enumerate(headers):
+    def first_invalid(self, headers, lenient=True, start=0):
+        for i in range(start, len(headers)):
+            h = headers[i]
             s, l, rule = self.judge(h, headers[i - 1] if i else None, headers[i - 2] if i > 1 else None)
             if not (l if lenient else s):
                 return i, rule
@@ -237,6 +267,42 @@ def new_headers(cfg, prefix_ops=()):
     h = cfg.cls(':memory:')
     drive(h.open())
     return h
+
+
+# Histories that begin by storing a long prefix of the good chain (the 1000-header checkpointed chunk) would
+# spend 15 ms per transition re-validating it.  Such a prefix is stored ONCE with the real object (open,
+# connect, close) into a file, and every fresh object of these histories starts by loading that file with the
+# real open() - which is how the production wallet reaches that state anyway.
+ROOT_PREFIX_MIN = 500
+_ROOT_DIR = None
+_ROOT_FILES = {}
+
+
+def root_file(cfg, n):
+    """Path of a header file holding good[0:n], written by the real class (created on first use)."""
+    global _ROOT_DIR
+    key = (cfg.name, n)
+    if key not in _ROOT_FILES or not os.path.exists(_ROOT_FILES[key]):
+        if _ROOT_DIR is None or not os.path.isdir(_ROOT_DIR):
+            from vf.bootstrap import scratch_dir
+            _ROOT_DIR = scratch_dir('c07root')
+        path = os.path.join(_ROOT_DIR, f'root-{cfg.name}-{n}')
+        h = cfg.cls(path)
+        drive(h.open())
+        got = drive(h.connect(0, b''.join(cfg.good[:n])))
+        if got != n:
+            raise StoreFailed()
+        drive(h.close())
+        _ROOT_FILES[key] = path
+    return _ROOT_FILES[key]
+
+
+def drop_root_files():
+    global _ROOT_DIR
+    if _ROOT_DIR:
+        shutil.rmtree(_ROOT_DIR, True)
+    _ROOT_DIR = None
+    _ROOT_FILES.clear()
 
 
 def apply_op(cfg, h, end, op, res, rep, judge_it=True):
@@ -351,13 +417,31 @@ def canon(h, end):
     return hashlib.blake2b(bytes(h.io.getbuffer())[:len(h) * HS] + b'|%d|%d' % (len(h), end), digest_size=12).digest()
 
 
-def replay_history(cfg, history, res, judge_last_only=True, rep=None):
+def replay_history(cfg, history, res, judge_last_only=True, rep=None, via_root_file=True):
     """Fresh object, replay -> (h, end, log, ok)."""
-    h = new_headers(cfg)
     end = 0
     log = []
     ok = True
-    for idx, op in enumerate(history):
+    start_at = 0
+    first = history[0] if history else None
+    path = None
+    if via_root_file and first and first[0] == 'good' and first[1] == 0 and first[2] >= ROOT_PREFIX_MIN:
+        try:
+            path = root_file(cfg, first[2])
+        except StoreFailed:          # the tree under test refuses the good prefix: plain replay shows (and judges) that
+            path = None
+    if path:
+        h = cfg.cls(path)
+        drive(h.open())
+        if len(h) < first[2] or bytes(h.io.getbuffer())[:first[2] * HS] != b''.join(cfg.good[:first[2]]):
+            raise RuntimeError('root file does not hold the stored prefix')
+        end = first[2]
+        log.append(f'{first} stored once by open/connect/close, loaded here by open() from that file: len={len(h)}')
+        start_at = 1
+    else:
+        h = new_headers(cfg)
+    for idx in range(start_at, len(history)):
+        op = history[idx]
         last = idx == len(history) - 1
         line, end, ok1 = apply_op(cfg, h, end, op, res, rep, judge_it=(last or not judge_last_only))
         ok = ok and ok1
@@ -370,7 +454,8 @@ def _expand(item):
     """One BFS node: apply every operation of the alphabet to the state reached by `history`."""
     from vf.core import Result
     import traceback
-    cfg_name, N, history, expect, lo, hi = item
+    run_name, N, history, expect, lo, hi = item
+    cfg_name = RUNS[run_name]['cfg']
     res = Result()
     succ = []
     try:
@@ -378,12 +463,12 @@ def _expand(item):
         h, end, _, _ = replay_history(cfg, history, Result())
         if expect is not None and canon(h, end) != expect:
             raise RuntimeError(f'replay divergence: history {history} no longer reaches its recorded state')
-        for op in alphabet(cfg_name, N)[lo:hi]:
+        for op in alphabet(run_name, N)[lo:hi]:
             nh = history + [op]
             rep = {'part': 'a', 'config': cfg_name, 'history': nh}
             h, end, log, ok = replay_history(cfg, nh, res, rep=rep)
             res.count('evaluations')
-            res.distinct_add('nontrivial', (cfg_name, op[0], op[-1] if isinstance(op[-1], str) else '', len(history),
+            res.distinct_add('nontrivial', (run_name, op[0], op[-1] if isinstance(op[-1], str) else '', len(history),
                                             log[-1].split('->')[1]))
             if ok:
                 succ.append((canon(h, end), op))
@@ -392,43 +477,71 @@ def _expand(item):
     return res, succ
 
 
-def bfs(ctx, cfg_name, N, depth, root):
-    """Level-synchronous parallel BFS; returns (states, deepest history, first history)."""
+def bfs_multi(ctx, plan):
+    """Level-synchronous parallel BFS over several runs at once (one pool, the runs advance in lockstep so
+    that the shallow, expensive ones do not serialise).  plan: [(run, N, depth)].
+    -> {(run, N): (states, deepest history)}"""
     res = ctx.res
-    cfg = Config.get(cfg_name)
-    h, end, _, _ = replay_history(cfg, root, res, rep={'part': 'a', 'config': cfg_name, 'history': root})
-    seen = {canon(h, end)}
-    res.distinct_add('states', (cfg_name, canon(h, end)))
-    frontier = [(root, canon(h, end))]
-    deepest = root
+    state = {}
+    for run_name, N, depth in plan:
+        spec = RUNS[run_name]
+        cfg = Config.get(spec['cfg'])
+        root = spec['root']
+        h, end, _, ok = replay_history(cfg, root, res, rep={'part': 'a', 'config': spec['cfg'], 'history': root},
+                                       via_root_file=False)
+        if ok and root and root[0][2] >= ROOT_PREFIX_MIN:
+            try:
+                root_file(cfg, root[0][2])            # written here, before the pool forks; workers only read it
+            except StoreFailed:
+                pass
+        key = canon(h, end)
+        res.distinct_add('states', (spec['cfg'], key))
+        state[(run_name, N)] = dict(seen={key}, frontier=[(root, key)], deepest=root, depth=depth)
     pool = multiprocessing.get_context('fork').Pool(ctx.jobs) if ctx.jobs > 1 else None
     try:
-        for level in range(depth):
-            nops = len(alphabet(cfg_name, N))
-            per = max(8, min(200, (len(frontier) * nops) // (8 * ctx.jobs) + 1))
-            items = [(cfg_name, N, hist, key, lo, lo + per) for hist, key in frontier for lo in range(0, nops, per)]
-            results = pool.map(_expand, items, 1) if pool else [_expand(it) for it in items]
-            nxt = []
-            for it, (part, succ) in zip(items, results):
-                hist = it[2]
+        for level in range(max(d for _, _, d in plan)):
+            items = []
+            for run_name, N, depth in plan:
+                st = state[(run_name, N)]
+                if level >= depth or not st['frontier']:
+                    continue
+                nops = len(alphabet(run_name, N))
+                costly = bool(RUNS[run_name]['root'])          # a 1000-header root is replayed per transition
+                per = max(4 if costly else 8, min(200, (len(st['frontier']) * nops) // (8 * ctx.jobs) + 1))
+                if costly:
+                    per = min(per, 12)
+                items += [(run_name, N, hist, key, lo, lo + per) for hist, key in st['frontier']
+                          for lo in range(0, nops, per)]
+            if not items:
+                break
+            order = sorted(range(len(items)), key=lambda k: not RUNS[items[k][0]]['root'])   # costly items first
+            results = pool.map(_expand, [items[k] for k in order], 1) if pool else [_expand(items[k]) for k in order]
+            by_index = dict(zip(order, results))
+            nxt = {k: [] for k in state}
+            for idx, it in enumerate(items):
+                part, succ = by_index[idx]
+                run_name, N, hist = it[0], it[1], it[2]
+                st = state[(run_name, N)]
                 res.merge(part)
                 for key, op in succ:
-                    if key not in seen:
-                        seen.add(key)
-                        res.distinct_add('states', (cfg_name, key))
-                        nxt.append((hist + [op], key))
-            res.setmax(f'bfs_depth_{cfg_name}_{N}', level + 1)
-            res.count(f'new_states_at_depth_{level + 1}_{cfg_name}_{N}', len(nxt))
-            if nxt:
-                deepest = nxt[-1][0]
-            frontier = nxt
-            if not frontier:
-                break
+                    if key not in st['seen']:
+                        st['seen'].add(key)
+                        res.distinct_add('states', (RUNS[run_name]['cfg'], key))
+                        nxt[(run_name, N)].append((hist + [op], key))
+            for (run_name, N), new_frontier in nxt.items():
+                st = state[(run_name, N)]
+                if level < st['depth'] and st['frontier']:
+                    res.setmax(f'bfs_depth_{run_name}_{N}', level + 1)
+                    res.count(f'new_states_at_depth_{level + 1}_{run_name}_{N}', len(new_frontier))
+                    if new_frontier:
+                        st['deepest'] = new_frontier[-1][0]
+                    st['frontier'] = new_frontier
     finally:
         if pool:
             pool.close()
             pool.join()
-    return len(seen), deepest
+        drop_root_files()
+    return {k: (len(v['seen']), v['deepest']) for k, v in state.items()}
 
 
 def determinism_check(ctx, cfg_name, histories):
@@ -763,6 +876,274 @@ def _work_crash(item, res):
 
 
 # =====================================================================================================
+# (d) session histories: open -> connect ... -> close -> reopen, one to three sessions on one header file
+# =====================================================================================================
+
+SESSION_RUNS = {
+    'easy': dict(run='easy', setup=[], two_op_first=('good', 'xfork', 'fork')),
+    # above a checkpointed chunk (repair scans the headers above it on every open)
+    'ckpt': dict(run='ckpt', setup=[[['good', 0, 1000]]], two_op_first=('good',)),
+}
+
+
+def session_ops(srun, N):
+    """Operations used inside sessions: everything of the connect alphabet that can change the store (good
+    slices, fork slices incl. same-length and shorter ones, re-timed valid headers) plus a few refused ones."""
+    out = []
+    for op in alphabet(SESSION_RUNS[srun]['run'], N):
+        k = op[0]
+        if k in ('good', 'fork', 'xfork') or (k == 'ret' and op[2] in ('r', 'rv')) or \
+                (k == 'alt' and op[2] == 1 and op[4] == 'nonce') or (k == 'rule' and op[2] == 'right-bits-insufficient-pow'):
+            out.append(op)
+    return out
+
+
+def session_kinds(srun, N, rich):
+    """One-call sessions with every operation; two-call sessions whose first call is a good slice (rich: also a
+    fork from its first header / a slice crossing into a fork)."""
+    ops = session_ops(srun, N)
+    kinds = SESSION_RUNS[srun]['two_op_first'] if rich else ('good',)
+    lo = RUNS[SESSION_RUNS[srun]['run']]['lo']
+    first = [op for op in ops if op[0] in kinds and (op[0] != 'fork' or op[2] == 0) and (rich or op[0] != 'good' or op[1] == lo or lo == 0)]
+    return [[op] for op in ops] + [[a, b] for a in first for b in ops]
+
+
+def run_session(cfg, path, file_bytes, end, ops, res, rep):
+    """One session on the real object: (file as left by the previous session) open, connect..., close, then a
+    restart.  -> (ok, new file bytes, new end, held bytes, log lines)"""
+    if file_bytes is None:
+        if os.path.exists(path):
+            os.remove(path)
+    else:
+        with open(path, 'wb') as f:
+            f.write(file_bytes)
+    log = []
+    ok = True
+
+    def bad(sig, what):
+        nonlocal ok
+        ok = False
+        res.violation(sig, what + ' | ' + ' ; '.join(log[-3:]), rep)
+
+    h = cfg.cls(path)
+    try:
+        drive(h.open())
+    except Exception as e:   # noqa
+        bad({'kind': 'open-raises', 'exc': type(e).__name__, 'image': 'clean-session-file'}, f'open() raised {e!r}')
+        return False, file_bytes, end, b'', log
+    end = min(end, len(h))
+    for op in ops:
+        line, end, ok1 = apply_op(cfg, h, end, op, res, rep)
+        log.append(line)
+        if not ok1:
+            return False, file_bytes, end, b'', log
+    held = bytes(h.io.getbuffer())[:len(h) * HS]
+    try:
+        drive(h.close())
+    except Exception as e:   # noqa
+        bad({'kind': 'close-raises', 'exc': type(e).__name__}, f'close() raised {e!r}')
+        return False, file_bytes, end, held, log
+    with open(path, 'rb') as f:
+        new_file = f.read()
+    # ---- restart after the clean close
+    res.count('evaluations')
+    res.count('executions')
+    res.count('clean_restarts')
+    h2 = cfg.cls(path)
+    try:
+        drive(h2.open())
+    except Exception as e:   # noqa
+        bad({'kind': 'open-raises', 'exc': type(e).__name__, 'image': 'after-clean-close'}, f'open() raised {e!r}')
+        return False, new_file, end, held, log
+    loaded = bytes(h2.io.getbuffer())[:len(h2) * HS]
+    F, rule = judge_for(cfg).first_invalid(split(held), start=cfg.above)
+    log.append(f'clean close with {len(held) // HS} headers held (first non-linking header: {F}); restart loads {len(loaded) // HS}')
+    missing = set(h2.known_missing_checkpointed_chunks)
+    if F is None and not missing:
+        # nothing was damaged and what the session held is one valid chain: it must come back exactly
+        if loaded != held:
+            nl, nh = len(loaded) // HS, len(held) // HS
+            diff = next((k for k in range(min(nl, nh)) if loaded[k * HS:(k + 1) * HS] != held[k * HS:(k + 1) * HS]), None)
+            what = ('loaded-header-differs-from-held' if diff is not None else
+                    'headers-lost' if nl < nh else 'extra-headers-loaded')
+            if what == 'extra-headers-loaded' and judge_for(cfg).first_invalid(split(loaded), start=cfg.above)[0] is None:
+                # close() does not truncate the file: headers of an earlier session that still link to the held
+                # tip come back.  The loaded chain is valid and contains everything held - weaker reading, tallied
+                res.tally('interpretation_only:restart-resurrects-valid-headers-an-earlier-session-left-in-the-file')
+            else:
+                bad({'kind': 'clean-restart-does-not-reload-what-was-held', 'how': what},
+                    f'after a clean close() and restart the chain differs from what the session held '
+                    f'({what}, height {diff if diff is not None else min(nl, nh)})')
+        else:
+            res.witness('clean_restart_reloaded_exactly')
+    elif F is not None:
+        # the session itself left headers of an abandoned branch above a shorter fork (known finding F20): they
+        # may be dropped from one before the first non-linking header, as for a damaged file
+        res.tally('session-closed-with-stale-tail')
+        if held[:len(loaded)] != loaded or len(loaded) // HS < max(cfg.above, F - 1):
+            bad({'kind': 'clean-restart-with-stale-tail-loads-wrong-chain'},
+                f'restart loaded {len(loaded) // HS} headers that are not the held prefix up to {F - 1}')
+    new_end = min(end, len(loaded) // HS)
+    fi, rule = judge_for(cfg).first_invalid(split(loaded)[:new_end], start=cfg.above)
+    if ok and fi is not None:
+        bad({'kind': 'chain-invalid-after-restart', 'rule': rule}, f'loaded chain is invalid at height {fi} ({rule})')
+    return ok, new_file, new_end, held, log
+
+
+def cut_offsets(nbytes, lo_byte, every_byte):
+    if every_byte:
+        return range(lo_byte, nbytes)
+    out = set()
+    for b in range(lo_byte, nbytes, HS):
+        out.update((b, b + 1, b + 56, b + 111))
+    return sorted(k for k in out if lo_byte <= k < nbytes)
+
+
+def crash_after_session(cfg, path, file_bytes, held, end, res, rep, every_byte, only=None):
+    """Crash images of the LAST session's file: the file cut at a byte offset, then a restart."""
+    J = judge_for(cfg)
+    S = split(held)
+    F, _ = J.first_invalid(S, start=cfg.above)
+    for k in (cut_offsets(len(file_bytes), cfg.above * HS, every_byte) if only is None else [only]):
+        with open(path, 'wb') as f:
+            f.write(file_bytes[:k])
+        res.count('evaluations')
+        res.count('executions')
+        res.count('crash_images')
+        h = cfg.cls(path)
+        r = dict(rep, cut=k)
+        try:
+            drive(h.open())
+        except Exception as e:   # noqa
+            res.violation({'kind': 'open-raises', 'exc': type(e).__name__, 'image': 'cut-after-sessions'},
+                          f'open() raised {e!r} on the file cut at byte {k}', r)
+            continue
+        loaded = bytes(h.io.getbuffer())[:len(h) * HS]
+        d = min(k // HS, F if F is not None else 10 ** 9)
+        if held[:len(loaded)] != loaded and not (cfg.ckpts and set(h.known_missing_checkpointed_chunks)):
+            res.violation({'kind': 'loaded-not-prefix-of-stored', 'image': 'cut-after-sessions'},
+                          f'file of {len(S)} headers cut at byte {k}: the {len(loaded) // HS} loaded headers are not a prefix of '
+                          f'what the last session held', r)
+        elif len(loaded) // HS < max(0, d - 1):
+            res.violation({'kind': 'repair-drops-valid-headers', 'image': 'cut-after-sessions'},
+                          f'file of {len(S)} headers cut at byte {k}: only {len(loaded) // HS} loaded, {d - 1} had to survive', r)
+        else:
+            res.witness('cut_after_sessions_repaired')
+
+
+def replay_sessions(cfg, sessions, cut, res):
+    path = os.path.join(scratch(), f'sess-replay-{os.getpid()}')
+    file_bytes, end, held, ok, logs = None, 0, b'', True, []
+    for idx in range(len(sessions)):
+        rep = {'part': 'd', 'config': cfg.name, 'sessions': sessions[:idx + 1]}
+        ok, file_bytes, end, held, log = run_session(cfg, path, file_bytes, end, sessions[idx], res, rep)
+        logs.append(f'-- session {idx + 1}: open, ' + ' ; '.join(log))
+        if not ok:
+            break
+    if ok and cut is not None:
+        crash_after_session(cfg, path, file_bytes, held, end, res, {'part': 'd', 'config': cfg.name, 'sessions': sessions},
+                            False, only=int(cut))
+        logs.append(f'-- crash image: file cut at byte {cut}, restart')
+    return logs
+
+
+def _expand_sessions(item):
+    from vf.core import Result
+    import traceback
+    srun, N, node, lo, hi, every_byte, rich = item
+    file_bytes, end, history = node
+    cfg = Config.get(RUNS[SESSION_RUNS[srun]['run']]['cfg'])
+    res = Result()
+    succ = []
+    try:
+        path = os.path.join(scratch(), f'sess-{os.getpid()}')
+        for ops in session_kinds(srun, N, rich)[lo:hi]:
+            nh = history + [ops]
+            rep = {'part': 'd', 'config': cfg.name, 'sessions': nh}
+            ok, new_file, new_end, held, log = run_session(cfg, path, file_bytes, end, ops, res, rep)
+            res.distinct_add('nontrivial', ('session', srun, len(history), tuple(op[0] for op in ops), log[-1] if log else ''))
+            if ok:
+                succ.append((hashlib.blake2b(new_file + b'|%d' % new_end, digest_size=12).digest(), ops, new_file, new_end, held))
+    except BaseException:   # noqa
+        res.error(f'C07 session node {srun} {history!r:.200}: ' + traceback.format_exc()[-1500:])
+    finally:
+        drop_scratch()
+    return res, succ
+
+
+def _crash_sessions(item):
+    from vf.core import Result
+    import traceback
+    srun, states, every_byte = item
+    cfg = Config.get(RUNS[SESSION_RUNS[srun]['run']]['cfg'])
+    res = Result()
+    try:
+        path = os.path.join(scratch(), f'sessc-{os.getpid()}')
+        for file_bytes, end, history, held in states:
+            crash_after_session(cfg, path, file_bytes, held, end, res, {'part': 'd', 'config': cfg.name, 'sessions': history},
+                                every_byte)
+    except BaseException:   # noqa
+        res.error(f'C07 session crash item {srun}: ' + traceback.format_exc()[-1500:])
+    finally:
+        drop_scratch()
+    return res
+
+
+def session_bfs(ctx, srun, N, depth, every_byte, rich):
+    """BFS over session histories; a state is the header file a clean close left behind (plus the end of the
+    last connected batch).  -> (states, transitions)"""
+    res = ctx.res
+    cfg = Config.get(RUNS[SESSION_RUNS[srun]['run']]['cfg'])
+    # the set-up sessions (storing the checkpointed chunk) are ordinary sessions too
+    node = (None, 0, [])
+    path = os.path.join(scratch(), f'sess-root-{os.getpid()}')
+    for ops in SESSION_RUNS[srun]['setup']:
+        hist = node[2] + [ops]
+        ok, f, e, held, log = run_session(cfg, path, node[0], node[1], ops, res, {'part': 'd', 'config': cfg.name, 'sessions': hist})
+        if not ok:
+            return 0, 0, []
+        node = (f, e, hist)
+    drop_scratch()
+    seen = {hashlib.blake2b((node[0] or b'') + b'|%d' % node[1], digest_size=12).digest()}
+    frontier = [node]
+    states = []            # (file, end, history, held) of every distinct state reached
+    nk = len(session_kinds(srun, N, rich))
+    transitions = 0
+    pool = multiprocessing.get_context('fork').Pool(ctx.jobs) if ctx.jobs > 1 else None
+    try:
+        for level in range(depth):
+            per = max(20, min(400, (len(frontier) * nk) // (6 * ctx.jobs) + 1))
+            items = [(srun, N, nd, lo, lo + per, every_byte, rich) for nd in frontier for lo in range(0, nk, per)]
+            results = pool.map(_expand_sessions, items, 1) if pool else [_expand_sessions(it) for it in items]
+            nxt = []
+            for it, (part, succ) in zip(items, results):
+                res.merge(part)
+                transitions += min(it[4], nk) - it[3]
+                for key, ops, new_file, new_end, held in succ:
+                    if key not in seen:
+                        seen.add(key)
+                        res.distinct_add('states', ('session', srun, key))
+                        hist = it[2][2] + [ops]
+                        nxt.append((new_file, new_end, hist))
+                        states.append((new_file, new_end, hist, held))
+            res.count(f'new_session_states_at_depth_{level + 1}_{srun}', len(nxt))
+            frontier = nxt
+            if not frontier:
+                break
+        # crash images of the last session of every distinct state
+        groups = chunked(states, max(1, len(states) // (4 * ctx.jobs) + 1))
+        items = [(srun, g, every_byte) for g in groups]
+        for part in (pool.map(_crash_sessions, items, 1) if pool else [_crash_sessions(it) for it in items]):
+            res.merge(part)
+    finally:
+        if pool:
+            pool.close()
+            pool.join()
+    res.count('session_transitions', transitions)
+    return len(seen), transitions, (states[-1][2] if states else [])
+
+
+# =====================================================================================================
 # run / replay
 # =====================================================================================================
 
@@ -782,23 +1163,30 @@ def run(ctx):
     t0 = time.time()
     phases = {}
 
-    # ---- (a) connect BFS
-    plan = [('easy', 9 if q else 10, 3 if q else 4, []),
-            ('main', 22, 2 if q else 3, []),
-            ('ckpt', 4, 2 if q else 3, [['good', 0, 1000]])]
+    # ---- (a) connect BFS  (run, window, depth)
+    plan = [('easy', 9 if q else 10, 3 if q else 4),
+            ('main', 22, 2 if q else 3),
+            ('ckpt', 4, 2 if q else 3),
+            ('ckpt-inside', 6 if q else 8, 2 if q else 3),
+            ('ckpt2-inside', 3, 2),
+            ('ckpt-straddle', 6, 1 if q else 2),
+            ('mainck', 22, 1 if q else 2)]
     if not q:
-        plan.append(('easy', 16, 3, []))          # longer prefix (more retarget situations), one call less
+        plan.append(('easy', 16, 3))              # longer prefix (more retarget situations), one call less
     bounds = {}
-    for cfg_name, N, depth, root in plan:
-        nstates, deepest = bfs(ctx, cfg_name, N, depth, root)
-        bounds[f'connect_{cfg_name}_{N}'] = {'chain_prefix': N, 'depth': depth, 'alphabet': len(alphabet(cfg_name, N)),
-                                              'states': nstates}
-        first = root + [alphabet(cfg_name, N)[0]]
+    found = bfs_multi(ctx, plan)
+    for run_name, N, depth in plan:
+        spec = RUNS[run_name]
+        nstates, deepest = found[(run_name, N)]
+        bounds[f'connect_{run_name}_{N}'] = {'class': spec['cfg'], 'window': [spec['lo'], spec['lo'] + N], 'depth': depth,
+                                              'alphabet': len(alphabet(run_name, N)), 'states': nstates,
+                                              'root': spec['root']}
+        first = spec['root'] + [alphabet(run_name, N)[0]]
         viol = [v['replay']['history'] for v in res.violations.values()
-                if (v['replay'] or {}).get('part') == 'a' and v['replay'].get('config') == cfg_name]
-        determinism_check(ctx, cfg_name, [first, deepest] + viol)
-        res.sample({'config': cfg_name, 'deepest_history': deepest})
-        phases[f'connect_{cfg_name}_{N}'] = round(time.time() - t0, 1)
+                if (v['replay'] or {}).get('part') == 'a' and v['replay'].get('config') == spec['cfg']]
+        determinism_check(ctx, spec['cfg'], [first, deepest] + viol[:6])
+        res.sample({'run': run_name, 'deepest_history': deepest})
+    phases['connect'] = round(time.time() - t0, 1)
 
     # ---- (b) checkpoints
     cases = []
@@ -854,6 +1242,24 @@ def run(ctx):
     ctx.pmap(work_crash, items)
     drop_scratch()
     phases['crash_repair'] = round(time.time() - t0, 1)
+
+    # ---- (d) session histories
+    from vf.core import Result
+    splan = [('easy', 4 if q else 5, 2 if q else 3), ('ckpt', 3, 2)]
+    for srun, N, depth in splan:
+        nstates, ntrans, deepest = session_bfs(ctx, srun, N, depth, every_byte=not q, rich=not q)
+        bounds[f'sessions_{srun}'] = {'window': N, 'sessions': depth + len(SESSION_RUNS[srun]['setup']),
+                                      'session_kinds': len(session_kinds(srun, N, not q)), 'states': nstates,
+                                      'transitions': ntrans, 'crash_cuts': 'every byte' if not q else '4 per header'}
+        if deepest:
+            cfg = Config.get(RUNS[SESSION_RUNS[srun]['run']]['cfg'])
+            logs = [replay_sessions(cfg, deepest, None, Result()) for _ in range(2)]
+            res.count('determinism_replays', 2)
+            if logs[0] != logs[1]:
+                res.error(f'C07 nondeterministic session replay of {deepest}')
+            res.sample({'session_run': srun, 'deepest_session_history': deepest})
+    drop_scratch()
+    phases['sessions'] = round(time.time() - t0, 1)
     bounds['phase_finished_at_wall_s'] = phases
 
     res.sample({'connect_op_examples': [['good', 0, 3], ['fork', 2, 0, 2], ['alt', 3, 2, 1, 'timestamp'],
@@ -870,6 +1276,8 @@ def run(ctx):
               'successor carries the stale bits, another genesis, [main] headers mined at real difficulty; a state = '
               '(stored bytes, len, end of last connected batch). (b) fetch_chunk / get_raw_header with the right chunk, '
               'the chunk with each of its 1000 headers altered in one byte, short, long, un-checkpointed, swapped. '
+              '(d) session histories: open, 1-2 connect calls (incl. same-length and shorter forks), close, restart - BFS '
+              'over 1-3 sessions on one file, exact reload after every clean close, byte cuts of the last file. '
               '(c) every byte-offset cut of the header file and every (stored length L, height above the checkpoint, '
               'byte offset, mask) overwrite, reopened with open(). Non-trivial/distinct = distinct (config, operation '
               'kind, outcome) classes / chunk cases / crash-image groups.'),
@@ -892,7 +1300,8 @@ def run(ctx):
                             'batch_with_invalid_header:prev', 'batch_with_invalid_header:genesis',
                             'start_beyond_tip_refused', 'checkpointed_chunk_accepted', 'bad_chunk_refused:byte',
                             'checkpointed_chunk_flagged_missing', 'misaligned_file_repaired',
-                            'damage_detected_and_truncated', 'repair_dropped_one_before_damage'],
+                            'damage_detected_and_truncated', 'repair_dropped_one_before_damage',
+                            'clean_restart_reloaded_exactly', 'cut_after_sessions_repaired'],
     )
 
 
@@ -906,6 +1315,8 @@ def replay(data):
         log = '\n'.join(log)
     elif part == 'b':
         log = run_chunk_case(cfg, data['case'], data['via'], res)
+    elif part == 'd':
+        log = '\n'.join(replay_sessions(cfg, data['sessions'], data.get('cut'), res))
     else:
         image = data['image']
         try:
